@@ -32,7 +32,7 @@ def chunks(tier, seed):
     for o in orders:
         for part in range(2):
             out.append(('case_single3', [dict(order=list(o), part=part, seed=seed, dyn=part)]))
-    n = 150 if tier == 'quick' else 3000
+    n = 150 if tier == 'quick' else 3000 * DEEP
     for k in range(0, n, 15):
         out.append(('case_sets', [dict(seed=seed * 1000003 + k + i, nvars=3 + (k + i) % 4, dyn=(k + i) % 3 == 0)
                                   for i in range(15)]))
